@@ -70,6 +70,12 @@ impl<E: Pairing> CommitterKey<E> {
 
     /// Given a polynomial `polynomial` of degree less than `max_degree`, return a commitment to `polynomial`.
     pub fn commit(&self, polynomial: &[E::ScalarField]) -> Commitment<E> {
+        // The multi-scalar multiplication silently drops the coefficients that have no power:
+        // a polynomial longer than the key would be committed as its truncation.
+        assert!(
+            self.powers_of_g.len() >= polynomial.len(),
+            "the polynomial has more coefficients than the committer key supports"
+        );
         Commitment(msm::<E>(&self.powers_of_g, polynomial))
     }
 
@@ -106,6 +112,10 @@ impl<E: Pairing> CommitterKey<E> {
         polynomial: &[E::ScalarField],
         evalualtion_point: &E::ScalarField,
     ) -> (E::ScalarField, EvaluationProof<E>) {
+        assert!(
+            self.powers_of_g.len() >= polynomial.len(),
+            "the polynomial has more coefficients than the committer key supports"
+        );
         let mut quotient = Vec::new();
 
         let mut previous = E::ScalarField::zero();
@@ -128,6 +138,10 @@ impl<E: Pairing> CommitterKey<E> {
         polynomial: &[E::ScalarField],
         eval_points: &[E::ScalarField],
     ) -> EvaluationProof<E> {
+        assert!(
+            self.powers_of_g.len() >= polynomial.len(),
+            "the polynomial has more coefficients than the committer key supports"
+        );
         // Computing the vanishing polynomial over eval_points
         let z_poly = vanishing_polynomial(eval_points);
 
